@@ -361,6 +361,7 @@ func (s *supOFO) childDisable(name gen.Atom) (supAction, error) {
 		}
 
 		if cs.pid == empty {
+			cs.disabled = true
 			return action, nil
 		}
 
